@@ -92,6 +92,70 @@ def from_sim(sims, first_id):
     return out
 
 
+def feats(b):
+    """coverage features of a behaviour: operations applied between Snapshot() and a later Persist that a
+    restart then restores ('late'), the same kind twice on one target in that window ('late2'), operations in a
+    replayed suffix, consecutive pairs of operation kinds"""
+    f = set()
+    steps = b['steps']
+    acts = [s['a'] for s in steps]
+    prev = None
+    snap_at = None
+    window = []
+    persisted_window = None
+    since_snapshot = []
+    for i, s in enumerate(steps):
+        a = s['a']
+        if a == 'Apply':
+            op = s['o']['op']
+            if prev:
+                f.add(('pair', prev, op))
+            prev = op
+            tgt = (op, s['o'].get('s'), s['o'].get('p'), s['o'].get('g'))
+            if snap_at is not None:
+                window.append(tgt)
+            since_snapshot.append(op)
+        elif a == 'Snapshot':
+            snap_at, window, since_snapshot = i, [], []
+        elif a == 'Persist' and snap_at is not None:
+            persisted_window, snap_at = list(window), None
+        elif a == 'Restart':
+            if persisted_window is not None:
+                for tgt in persisted_window:
+                    f.add(('late', tgt[0]))
+                    if persisted_window.count(tgt) >= 2:
+                        f.add(('late2', tgt[0]))
+                kinds = [x[0] for x in persisted_window]
+                for x, y in zip(kinds, kinds[1:]):
+                    f.add(('latepair', x, y))
+            for op in since_snapshot:
+                f.add(('replayed', op))
+            f.add(('restart', 'snap' if persisted_window is not None else 'nosnap'))
+    return f
+
+
+def select(pool, n, quota=3):
+    """coverage-guided choice of n behaviours from a simulated pool: greedily those that add the most features
+    not yet seen `quota` times, then the rest in order"""
+    seen = {}
+    fs = [feats(b) for b in pool]
+    chosen, left = [], list(range(len(pool)))
+    while left and len(chosen) < n:
+        best, gain = None, 0
+        for i in left:
+            g = sum(1 for x in fs[i] if seen.get(x, 0) < quota)
+            if g > gain:
+                best, gain = i, g
+        if best is None:
+            break
+        chosen.append(best)
+        left.remove(best)
+        for x in fs[best]:
+            seen[x] = seen.get(x, 0) + 1
+    chosen += left[:max(0, n - len(chosen))]
+    return [pool[i] for i in sorted(chosen)], len(seen)
+
+
 def nontrivial(b):
     acts = [s['a'] for s in b['steps']]
     ops = [s['o']['op'] for s in b['steps'] if s['a'] == 'Apply']
@@ -109,6 +173,8 @@ def features(b, line_action):
         f.append('delete')
     if any(o in ops for o in ('CreateGroup', 'JoinGroup')):
         f.append('groups')
+    if any(s['a'] == 'Apply' and s['o']['op'] in ('CreateGroup', 'JoinGroup') and len(s['o']['S']) > 1 for s in b['steps']):
+        f.append('multi')   # some member consumes more than one stream: assignments depend on the history
     return '+'.join(f) or '-'
 
 
@@ -178,7 +244,7 @@ def judge(rep, behaviours, trace):
     return res
 
 
-FAMILIES_QUICK = [('MC_MetadataFSM.cfg', 'Sim_MetadataFSM.cfg', 350), ('MC_MetadataFSM_groups.cfg', 'Sim_MetadataFSM_groups.cfg', 350)]
+FAMILIES_QUICK = [('MC_MetadataFSM.cfg', 'Sim_MetadataFSM.cfg', 260), ('MC_MetadataFSM_groups.cfg', 'Sim_MetadataFSM_groups.cfg', 260)]
 FAMILIES_THOROUGH = [('MC_MetadataFSM_thorough.cfg', 'Sim_MetadataFSM.cfg', 1200),
                      ('MC_MetadataFSM_groups_thorough.cfg', 'Sim_MetadataFSM_groups.cfg', 1200)]
 
@@ -206,8 +272,13 @@ def run(rep, tier, seed, replay):
         if res['violated']:
             raise core.Inconclusive('design check %s reports %s (specification and property disagree on the model): %s'
                                     % (mc, res['violated'], res['out'][-1500:]))
-        sims = core.tlc_simulate('MC_MetadataFSM.tla', sim, num, 16, seed, timeout=1200)
-        behaviours += from_sim(sims, len(behaviours) + 1)
+        # a pool four times as large is simulated; the behaviours to execute are chosen by feature coverage
+        sims = core.tlc_simulate('MC_MetadataFSM.tla', sim, 4 * num, 16, seed, timeout=1200)
+        chosen, nfeat = select(from_sim(sims, 0), num)
+        rep.cov.setdefault('simulation_features_covered', {})[sim[:-4]] = nfeat
+        for b in chosen:
+            b['id'] = len(behaviours) + 1
+            behaviours.append(b)
         lap('design + simulation ' + mc[:-4])
     # the open findings must stay reachable in the model (otherwise the model lost them)
     for cfg, prop in (('MC_MetadataFSM_finding.cfg', 'A_RS_GroupEpoch'), ('MC_MetadataFSM_finding2.cfg', 'A_RS_GroupAsg'),
@@ -219,7 +290,10 @@ def run(rep, tier, seed, replay):
             raise core.Inconclusive('model no longer reproduces the open finding %s: %s' % (prop, fres['out'][-1000:]))
     lap('finding configs')
     covered = total = 0
-    for cfg in (['MC_MetadataFSM_replay.cfg'] if quick else ['MC_MetadataFSM_replay_streams.cfg', 'MC_MetadataFSM_replay_groups.cfg']):
+    # MC_MetadataFSM_replay_late: directed family (one partition; leader changes, ISR shrink/expand; log <= 3) so that
+    # every Persist position after the Snapshot and every restart position behind it is executed
+    for cfg in (['MC_MetadataFSM_replay.cfg', 'MC_MetadataFSM_replay_late.cfg'] if quick else
+                ['MC_MetadataFSM_replay_streams.cfg', 'MC_MetadataFSM_replay_groups.cfg', 'MC_MetadataFSM_replay_late.cfg']):
         g = graph.tlc_dump('MC_MetadataFSM.tla', cfg, workers=min(core.NCPU, 8), timeout=1500)
         gb, cv, tt = from_graph(g, len(behaviours) + 1)
         behaviours += gb
